@@ -170,7 +170,7 @@ def check_nearest(part, H, t, s):
 
 def main(run: Run):
     mode = run.pick("subset", "all")
-    spacings = [1, 10, 60, 200]
+    spacings = [1, 2, 3, 7, 10, 50, 60, 200]  # the pools' spacings (1, 10, 60, 200) and others, odd ones included: the helper takes any spacing
     n_chunks = 128
     step = (MAX_TICK + n_chunks) // n_chunks
     jobs = []
